@@ -24,6 +24,7 @@ fn main() {
         "c15-emit" => big_stack(move || sweep::c15(&rest2)),
         "entries-emit" => big_stack(move || sweep::entries(&rest2)),
         "bundled-emit" => big_stack(move || bundled::emit(&rest2)),
+        "streams-emit" => big_stack(move || sweep::streams(&rest2)),
         "c06-replay" => big_stack(move || c06::replay(&rest2)),
         "c06-emit" => big_stack(move || c06::emit(&rest2)),
         "grammar-list" => big_stack(move || c01::grammar_list(&rest2)),
